@@ -20,7 +20,7 @@ FLOOR = {'quick': 2000, 'thorough': 20000}
 BUDGET = {'quick': 110, 'thorough': 1800}
 HARD_TIMEOUT = 400
 SOFT_TIMEOUT = 300
-N = {'quick': 200, 'thorough': 5000}
+N = {'quick': 160, 'thorough': 5000}
 POSTULATES = ['DI', 'REF', 'SCL', 'LLE', 'RW', 'AND', 'OR', 'CM', 'CUT', 'RM', 'CP']
 REQUIRED = {'quick': {'nontrivial_' + p: 20 for p in POSTULATES},
             'thorough': {'nontrivial_' + p: 200 for p in POSTULATES}}
